@@ -685,6 +685,22 @@ emit(co3("resumed"))
 local co4 = coroutine.create(rec)
 emit(coroutine.resume(co4, $D, true))
 `},
+	{Name: "dead-coro-introspect", Src: `
+-- a coroutine that died from an error keeps its frames: they must stay intact
+-- (not handed back to the pools) while later calls churn through the pools
+local function lvl(n) if n == 0 then error("deep", 0) end return lvl(n - 1) + 1 end
+local co = coroutine.create(function() return lvl($D) end)
+emit(coroutine.resume(co))
+local function churn(n) if n == 0 then return 0 end return churn(n - 1) + 1 end
+emit(churn($D), churn(3))
+local tb = debug.traceback(co)
+emit(select(2, tb:gsub("\n", "\n")), #tb, tb:sub(1, 200))
+for l = 0, 3 do
+  local i = debug.getinfo(co, l, "Sl")
+  emit(l, i and i.short_src, i and i.currentline)
+end
+emit(churn(5), coroutine.status(co))
+`},
 	{Name: "gofn-rotation", Src: `
 local s, t = 0, {5, 3, 8}
 for i = 1, $D do
